@@ -128,7 +128,9 @@ fn prefix_case(src: &mut Src, ctx: &mut Ctx) -> Result<(), String> {
 // ---- (ii) single-token faults -----------------------------------------------------------------------------
 const REPLACEMENTS: &[&str] = &["END", ";", "42", "-0.5", "\"abc", "MACRO", "PIN", "LAYER", "RECT", "PORT", "VERSION", "UNITS", "PROPERTY", "BEGINEXT", "ENDEXT", "ITERATE", "DO", "SITE", "VIA", "LIBRARY", "#",
     // numbers at the edges of the 96-bit decimal type behind every LEF number
-    "79228162514264337593543950335", "-79228162514264337593543950335", "99999999999999999999999999999", "7922816251426433759354395033.5", "0.0000000000000000000000000001", "123456789012345678901234567890123456789"];
+    "79228162514264337593543950335", "-79228162514264337593543950335", "99999999999999999999999999999", "7922816251426433759354395033.5", "0.0000000000000000000000000001", "123456789012345678901234567890123456789",
+    // words of few characters but many bytes (keyword lookup works on the text of the token)
+    "中文字符中文字符中文字符中文", "оченьдлинноеслововкириллице", "ＭＡＣＲＯ"];
 fn faults_per_token() -> u64 {
     3 + REPLACEMENTS.len() as u64
 }
@@ -256,7 +258,7 @@ fn soup(src: &mut Src) -> String {
             2 => s.push(';'),
             3 => s.push_str(&gen_name(src)),
             4 => s.push_str(*src.pick(ODD)),
-            5 => s.push_str(*src.pick(&["1e6", "-", ".", "1.2.3", "--1", "1e999", "nan", "inf", "0x10", "18T", "\"unterminated", "\"q\"", "# c", "+5", "BEGINEXT \"t\" ENDEXT", "BEGINEXT \"t\" # c\n ENDEXT", "79228162514264337593543950335", "-79228162514264337593543950335", "99999999999999999999999999999", "0.0000000000000000000000000001", "10000000000000000000000000000"])),
+            5 => s.push_str(*src.pick(&["1e6", "-", ".", "1.2.3", "--1", "1e999", "nan", "inf", "0x10", "18T", "\"unterminated", "\"q\"", "# c", "+5", "BEGINEXT \"t\" ENDEXT", "BEGINEXT \"t\" # c\n ENDEXT", "BEGINEXT \"t\" 中文字符中文字符中文字符中文 ENDEXT", "中文字符中文字符中文字符中文", "оченьдлинноеслововкириллице", "79228162514264337593543950335", "-79228162514264337593543950335", "99999999999999999999999999999", "0.0000000000000000000000000001", "10000000000000000000000000000"])),
             _ => {
                 let c = char::from_u32(src.below(0x11_0000) as u32).unwrap_or('x');
                 s.push(c);
